@@ -104,13 +104,14 @@ class Hexital:
     def _raw_candles_copy(self) -> List[Candle]:
         """Copies of the base candles to seed another timeframe. A candlestick conversion already
         applied to the base candles is undone on the copies: the new manager collapses raw candles
-        and converts the collapsed ones itself"""
+        and converts the collapsed ones itself. Readings already calculated on the base candles
+        belong to the base timeframe and are not carried over"""
         candles = deepcopy(self._candles[DEFAULT_CANDLES].candles)
         for candle in candles:
             if candle.tag:
                 candle.recover_clean_values()
                 candle.clean_values = {}
-                candle.reset_candle()
+            candle.reset_candle()
         return candles
 
     def _build_indicator(self, raw_indicator: dict) -> Indicator:
